@@ -64,8 +64,12 @@ class HashMap:
         if hash_key:
             key = hashlib.sha256(key.encode()).digest()
         if isinstance(key, bytes):
+            if len(key) > (self.size + 7) // 8:  # longer than the key width, even if the extra leading bits are zero
+                raise DictError('Key sizes must be the same.')
             key = int.from_bytes(key, 'big', signed=False)
         elif isinstance(key, str):
+            if len(key) > self.size:
+                raise DictError('Key sizes must be the same.')
             key = int(key, 2)
         elif isinstance(key, Address):
             key_bits = Builder().store_address(key).end_cell().begin_parse()
